@@ -31,6 +31,8 @@ pub struct Sess<L: SimLang, N: Analysis<L>> {
     /// with the run's operations. Nothing of it is ever compared; it exists so that state which wrongly
     /// outlives or crosses an e-graph (a per-thread or process-wide cache) meets a second user.
     pub companion: Option<EGraph<L, N>>,
+    /// the companion repeats the run's unions literally (rw engine: every equation has to stay model-valid)
+    pub companion_same_unions: bool,
 }
 
 impl<L: SimLang, N: Analysis<L>> Sess<L, N> {
@@ -45,6 +47,7 @@ impl<L: SimLang, N: Analysis<L>> Sess<L, N> {
             log_hash: 0,
             cur_op: 0,
             companion: None,
+            companion_same_unions: false,
         }
     }
 
@@ -58,7 +61,7 @@ impl<L: SimLang, N: Analysis<L>> Sess<L, N> {
 
     /// Mirrors one op of the trace on the companion e-graph: `add` literally, `union` with a
     /// different right side (an earlier tracked term), so that its equalities differ from the run's.
-    fn companion_op(&mut self, op: &Op) {
+    pub fn companion_op(&mut self, op: &Op) {
         let Some(mut c) = self.companion.take() else { return };
         match op.name.as_str() {
             "add" => {
@@ -67,7 +70,7 @@ impl<L: SimLang, N: Analysis<L>> Sess<L, N> {
                 self.log(&format!("companion add -> {h:?}"));
             }
             "union" => {
-                let other = if self.tracked.is_empty() {
+                let other = if self.tracked.is_empty() || self.companion_same_unions {
                     op.t[1].clone()
                 } else {
                     self.tracked[(self.cur_op * 7 + 3) % self.tracked.len()].tm.clone()
